@@ -275,6 +275,14 @@ func (ex *Exec) intrinsic(f *ssa.Function) intrinsicFn {
 			ex.usedAssume["A-ATOMIC: goroutine bodies verified as separate steps"] = true
 			return callOut{}
 		}
+	case "context.WithCancel":
+		return func(ex *Exec, s *State, instr ssa.Instruction, args []Val) callOut {
+			// trusted: a derived context and its cancel function (non-nil)
+			c := s.declare(ex.g.fresh("ctx"), SIface)
+			ex.assumeWF(s, c, nil)
+			s.assume(Not(Eq(ITag(c), IntLit(0))))
+			return callOut{v: TupleV{Scalar{c}, FuncV{Ref: ex.newRef(s)}}}
+		}
 	case "bytes.Split":
 		return func(ex *Exec, s *State, instr ssa.Instruction, args []Val) callOut {
 			// trusted, uninterpreted: some slice of sub-slices
